@@ -51,6 +51,69 @@ pub fn plans(prop: Prop) -> Vec<Value> {
                 ),
             ],
         )],
+        Prop::C12 => c12_grid(),
         _ => vec![],
     }
+}
+
+/// C12: the handshake grid and the gate table, enumerated completely in every batch.
+fn c12_grid() -> Vec<Value> {
+    let mut plans = Vec::new();
+
+    // (i) Handshake grid: legacy Connect with minor in {0,13,14,15,20,21,MAX}; Connect2 with
+    // major in {0,1,2} x minor in {0,13,14..21,1000,MAX}. The expected outcome is computed by the
+    // harness from the rule in the property statement.
+    let mut combos: Vec<(u32, u32, bool)> = Vec::new();
+    for minor in [0u32, 13, 14, 15, 20, 21, u32::MAX] {
+        combos.push((1, minor, true));
+    }
+    for major in [0u32, 1, 2] {
+        for minor in [0u32, 13, 14, 15, 16, 17, 18, 19, 20, 21, 1000, u32::MAX] {
+            combos.push((major, minor, false));
+        }
+    }
+    for (i, chunk) in combos.chunks(6).enumerate() {
+        let actors = chunk
+            .iter()
+            .map(|(major, minor, legacy)| {
+                json!({"major": major, "minor": minor, "legacy": legacy, "capacity": 0, "abuser": false,
+                       "conformant": false, "window": 1, "script": [["Sync", 0, 0, 0, 0]]})
+            })
+            .collect();
+        plans.push(plan(0xC12_000 + i as u64, actors));
+    }
+
+    // (ii) Gate table: each gated request kind at each negotiated version 1.14..1.20. Below its
+    // gate the broker must close the connection; at or above it the request is handled (the model
+    // says how). d = 7 forces the newer message variant regardless of the version.
+    let gated: [(&str, u32); 11] = [
+        ("Abort", 0),
+        ("RegisterIntrospection", 0),
+        ("QueryIntrospection", 0),
+        ("QueryIntrospectionReply", 0),
+        ("CreateService", 7),
+        ("QueryInfo", 0),
+        ("SubscribeService", 0),
+        ("UnsubscribeService", 0),
+        ("SubscribeAll", 0),
+        ("UnsubscribeAll", 0),
+        ("Call", 7),
+    ];
+    for minor in 14u32..=20 {
+        for (gi, group) in gated.chunks(4).enumerate() {
+            let mut actors = vec![actor(
+                20,
+                false,
+                false,
+                json!([["CreateObject", 0, 0, 0, 0], ["CreateService", 0, 0, 0, 1], ["Stall", 59, 0, 0, 0], ["Stall", 59, 0, 0, 0]]),
+            )];
+            for (kind, d) in group {
+                actors.push(json!({"major": 1, "minor": minor, "legacy": minor == 14 && gi % 2 == 0, "capacity": 0,
+                    "abuser": false, "conformant": false, "window": 1,
+                    "script": [["WaitService", 0, 0, 0, 0], ["CreateObject", 4, 0, 0, 0], ["Sync", 0, 0, 0, 0], [kind, 0, 0, 0, d], ["Sync", 0, 0, 0, 0]]}));
+            }
+            plans.push(plan(0xC12_100 + (minor as u64) * 8 + gi as u64, actors));
+        }
+    }
+    plans
 }
